@@ -1,0 +1,16 @@
+//go:build verif
+
+package internal
+
+import "sync/atomic"
+
+// VerifYield, when set, is called before every atomic operation of the read
+// buffer with a program-point number, so that a test harness can step threads
+// one atomic operation at a time. Only compiled with the verif build tag.
+var VerifYield atomic.Pointer[func(int)]
+
+func verifYield(pc int) {
+	if f := VerifYield.Load(); f != nil {
+		(*f)(pc)
+	}
+}
